@@ -100,7 +100,7 @@ Proof.
   - reflexivity.
 Qed.
 
-Example Zpowmod_kat : Zpowmod (-7) 65537 1000003 = ((-7) ^ 65537) mod 1000003.
+Example Zpowmod_kat : Zpowmod (-7) 1031 1000003 = ((-7) ^ 1031) mod 1000003.
 Proof. vm_compute. reflexivity. Qed.
 
 Section RsaProofs.
